@@ -324,6 +324,10 @@ namespace chaiscript {
         params.reserve(this->children[1]->children.size());
         for (const auto &child : this->children[1]->children) {
           params.push_back(child->eval(t_ss));
+          if (child->identifier == AST_Node_Type::Id) {
+            // a value passed on by name is no temporary for the callee, even if the caller received it as one
+            params.back().reset_return_value();
+          }
         }
 
         if (Save_Params) {
@@ -616,6 +620,10 @@ namespace chaiscript {
           has_function_params = true;
           for (const auto &child : this->children[1]->children[1]->children) {
             params.push_back(child->eval(t_ss));
+            if (child->identifier == AST_Node_Type::Id) {
+              // a value passed on by name is no temporary for the callee, even if the caller received it as one
+              params.back().reset_return_value();
+            }
           }
         }
 
@@ -668,7 +676,9 @@ namespace chaiscript {
         const auto captures = [&]() -> std::map<std::string, Boxed_Value> {
           std::map<std::string, Boxed_Value> named_captures;
           for (const auto &capture : this->children[0]->children) {
-            named_captures.insert(std::make_pair(capture->children[0]->text, capture->children[0]->eval(t_ss)));
+            auto captured = named_captures.insert(std::make_pair(capture->children[0]->text, capture->children[0]->eval(t_ss))).first;
+            // like a value passed on by name, a captured value is no temporary inside the lambda
+            captured->second.reset_return_value();
           }
           return named_captures;
         }();
